@@ -3,4 +3,4 @@ Require Import ExtrOcamlBasic.
 From LH Require Import Base.Bytes Base.Res Model.Config Spec.ConfigSpec Tie.TieConfig.
 Extraction "c17model.ml" extract_anchor run session s_g is_handled need_handle visible spec_shown spec_handled session_intent
   cls_special_gate cls_coupled cls_dead_flag cls_ignore_sites diag_guard json_wf patterns_ok client_wf to_json fixes_now deployed
-  code_round2 code_round1 code_original gate_covers gate_types_fixed special_types.
+  start step l_view l_srv spec_steps spec_file_view edits_wf cls_live_stale code_round3 code_round2 code_round1 code_original gate_covers gate_types_fixed special_types.
